@@ -3,6 +3,7 @@ package rules
 import (
 	"fmt"
 	"go/token"
+	"go/types"
 
 	"fpcheck/internal/core"
 
@@ -515,6 +516,174 @@ func runC06(c *core.Ctx) {
 		}
 		c.Check(val && prev && next && head, "R5", c06Q+".recycleNode", p.Pos(rec.Pos()), "Val/Prev cleared, Next relinked to the free list, node becomes the free-list head", fmt.Sprintf("recycling leaves stale state (Val cleared %v, Prev cleared %v, Next → free list %v, head updated %v)", val, prev, next, head))
 	}
+	c06ownership(c)
+}
+
+// c06ownership (R6): a function that clears a whole chain of nodes (walks `n = n.Next` from a parameter and resets the
+// visited nodes) may only be handed a chain of the free list - the free-list head, a successor of a free-list node, a fresh
+// node or nil. A node taken from the live list (first/last or a neighbour of those) still has live successors: clearing
+// from it wipes stored values.
+func c06ownership(c *core.Ctx) {
+	p := c.P
+	c.Rule("R6", "chain-clearing helpers (walk n = n.Next from a parameter, resetting every visited node) are only handed chains of the free list, never a node of the live list", 2)
+	ms := p.Methods(p.Fpgo, c06Q)
+	// chain clearers: (function, parameter index)
+	type clearer struct {
+		f   *ssa.Function
+		idx int
+	}
+	var clearers []clearer
+	for _, f := range ms {
+		for i, prm := range f.Params {
+			if i == 0 || !c06isNodePtr(prm.Type()) {
+				continue
+			}
+			walks, clears := false, false
+			core.Instrs(f, func(ins ssa.Instruction) {
+				if phi, ok := ins.(*ssa.Phi); ok {
+					fromPrm, fromNext := false, false
+					for _, e := range phi.Edges {
+						if e == ssa.Value(prm) {
+							fromPrm = true
+						}
+						if c06isLoad(e, c06Node+".Next", nil) {
+							fromNext = true
+						}
+					}
+					if fromPrm && fromNext {
+						walks = true
+					}
+				}
+				if st, ok := ins.(*ssa.Store); ok && core.IsNilConst(st.Val) && core.InLoop(st.Block()) {
+					if fa, isFA := st.Addr.(*ssa.FieldAddr); isFA && c06isNodePtr(fa.X.Type()) {
+						clears = true
+					}
+				}
+			})
+			if walks && clears {
+				clearers = append(clearers, clearer{f, i})
+			}
+		}
+	}
+	if len(clearers) == 0 {
+		c.Unknown("R6", "chain-clearers", "-", "no chain-clearing helper found (putAllIntoPool expected)")
+		return
+	}
+	recvOf := func(f *ssa.Function) ssa.Value {
+		for f.Parent() != nil {
+			f = f.Parent()
+		}
+		if len(f.Params) > 0 {
+			return f.Params[0]
+		}
+		return nil
+	}
+	// origin classes of a node value
+	const (
+		oPool = 1 << iota
+		oLive
+		oFresh
+		oNil
+		oUnknown
+	)
+	var origin func(v ssa.Value, depth int, seen map[ssa.Value]bool) int
+	origin = func(v ssa.Value, depth int, seen map[ssa.Value]bool) int {
+		v = core.Resolve(v)
+		if depth > 12 {
+			return oUnknown
+		}
+		if seen[v] {
+			return 0
+		}
+		seen[v] = true
+		switch x := v.(type) {
+		case *ssa.Const:
+			if x.IsNil() {
+				return oNil
+			}
+		case *ssa.Phi:
+			r := 0
+			for _, e := range x.Edges {
+				r |= origin(e, depth+1, seen)
+			}
+			return r
+		case *ssa.UnOp:
+			if fa, ok := x.X.(*ssa.FieldAddr); ok && x.Op == token.MUL {
+				switch core.FieldKey(fa) {
+				case c06Q + ".nodePoolFirst":
+					return oPool
+				case c06Q + ".first", c06Q + ".last":
+					return oLive
+				case c06Node + ".Next", c06Node + ".Prev":
+					return origin(fa.X, depth+1, seen)
+				}
+			}
+		case *ssa.TypeAssert:
+			if call, ok := core.Resolve(x.X).(*ssa.Call); ok && core.StdCallee(&call.Call) == "sync.(Pool).Get" {
+				return oFresh
+			}
+		case *ssa.Extract:
+			return origin(x.Tuple, depth+1, seen)
+		case *ssa.Call:
+			if g := core.Callee(&x.Call); g != nil && p.InRepo(g) && len(g.Blocks) > 0 && g.Signature.Results().Len() == 1 {
+				r := 0
+				for _, rcase := range core.ReturnCases(g) {
+					r |= origin(rcase.Vals[0], depth+1, seen)
+				}
+				return r
+			}
+		case *ssa.Parameter:
+			acts := core.ParamActuals(p, x)
+			if len(acts) == 0 {
+				return oUnknown
+			}
+			r := 0
+			for _, a := range acts {
+				r |= origin(a.Arg, depth+1, seen)
+			}
+			return r
+		}
+		return oUnknown
+	}
+	n := 0
+	for _, f := range p.Funcs {
+		if f.Pkg != p.Fpgo {
+			continue
+		}
+		core.Instrs(f, func(ins ssa.Instruction) {
+			ci, ok := ins.(ssa.CallInstruction)
+			if !ok {
+				return
+			}
+			g := core.Callee(ci.Common())
+			for _, cl := range clearers {
+				if g != cl.f || cl.idx >= len(ci.Common().Args) {
+					continue
+				}
+				n++
+				_ = recvOf
+				key := fmt.Sprintf("%s→%s#%d", core.FuncName(f), cl.f.Name(), n)
+				o := origin(ci.Common().Args[cl.idx], 0, map[ssa.Value]bool{})
+				switch {
+				case o&oLive != 0:
+					c.Fail("R6", key, p.InstrPos(ins), cl.f.Name()+" clears the whole chain behind the node it is given, and here it may be given a node of the live list ("+core.Path(ci.Common().Args[cl.idx])+"): the elements stored behind it are wiped (later Peek/Poll panic or return nothing)")
+				case o&oUnknown != 0:
+					c.Unknown("R6", key, p.InstrPos(ins), "cannot establish that "+core.Path(ci.Common().Args[cl.idx])+" is a chain of the free list")
+				default:
+					c.Pass("R6", key, p.InstrPos(ins), "argument is a free-list chain / fresh / nil")
+				}
+			}
+		})
+	}
+}
+
+func c06isNodePtr(t types.Type) bool {
+	pt, ok := t.Underlying().(*types.Pointer)
+	if !ok {
+		return false
+	}
+	n, ok := pt.Elem().(*types.Named)
+	return ok && n.Origin().Obj().Name() == c06Node
 }
 
 // c06produces: g is the fresh-node producer gen, or a wrapper every return of which yields the result
